@@ -16,6 +16,7 @@ import MVoro.Drv.Parse
 import MVoro.Drv.Geom
 import MVoro.Drv.Clip
 import MVoro.Drv.NN
+import MVoro.Drv.Aux20
 
 open MVoro MVoro.Drv
 
@@ -169,6 +170,8 @@ def handle (line : String) : String :=
       | "routes" => opRoutes args
       | "iloc" => opIloc args
       | "geom" => opGeom args
+      | "knn" => opKnn args
+      | "sphere" => opSphere args
       | "nnvisit" => (match parseTessIn args with | some (t0, rest) => opNNVisit t0 rest | none => "bad-op")
       | "clipperm" => opClipperm args
       | "cycle" => opCycle args
